@@ -28,6 +28,15 @@ def mk_tx(ex, sw, st, pending=True):
     sw.op_key = k
     sz = ex.new_int(st, "u64", "tx_size")
     sw.op_size = sz.t
+    # the content's hash (what finalize() will return) and the C18 / environment preconditions:
+    # a hash determines its content, hence its length; all distinct contents fit in u64 bytes
+    h = sw.sym_hash(st, "op_hash")
+    st.meta["content-hash"] = h
+    sw.op_hash = h
+    w = sw.iw
+    for i in range(w.U):
+        st.pc.append(z3.Implies(z3.And(w.pk[i], w.hk[i] == h), w.sk[i] == sz.t))
+    st.pc.append(w.total + sz.t <= U64)
     tx = VStruct("Transaction", [tmp, sw.cas_ref, bw, VOpaque("hasher", (("content",),)), sz, VSym(k, "K")])
     return tx
 
@@ -53,7 +62,28 @@ def _orphan_ref(ex, sw, st, n=1):
     return VRef(cell)
 
 
+def mk_config(ex, sw, st):
+    n = ex.new_int(st, "u64", "config_N")
+    st.pc.append(n.t >= 1)
+    pre = ex.fresh("config_precreate", "bool")
+    mode = ex.fresh("config_async", "bool")
+    sw.config_N, sw.config_pre, sw.config_async = n.t, pre, mode
+    sync = VEnum("SyncMode", z3.If(mode, 1, 0), {0: [], 1: []})
+    return VStruct("Config", [sync, n, VBool(pre), VBool(ex.fresh("scan", "bool")), VBool(ex.fresh("verify", "bool")),
+                              VBool(ex.fresh("failint", "bool"))])
+
+
+def open_new(ex, sw, st):
+    """CasInner::new with Index::load abstracted to one 'index-load' effect (recovery is C02/C03's subject)"""
+    def m_index_load(ex2, st2, fr, c, a, d, r):
+        st2.event("io", op="index-load", outcome="ok", path=("root",))
+        return ex2.models.io_hook.call(ex2, st2, d, r, "index-load-result", VStruct("Index", [VOpaque("index")]), path=("root",))
+    ex.models.reg("Index::load", m_index_load)
+    return (find_fn(ex, "::new", "cas::", p0="PathBuf", nparams=2), [VOpaque("path", ("root",)), mk_config(ex, sw, st)])
+
+
 ENTRY = {
+    "open.new": open_new,
     "put.finish": lambda ex, sw, st: (find_fn(ex, "::commit", "transaction::"), [mk_tx(ex, sw, st)]),
     "put.new": lambda ex, sw, st: (find_fn(ex, "::new", "transaction::"), [sw.cas_ref, VSym(sw.sym_key(st, "op_key"), "K")]),
     "tx.write": lambda ex, sw, st: (find_fn(ex, "::write", "transaction::"),
@@ -67,7 +97,7 @@ ENTRY = {
     "remove": lambda ex, sw, st: (find_fn(ex, "::remove", "cas::"), [sw.cas_ref, keyref(sw, st)]),
     "remove_range": lambda ex, sw, st: (find_fn(ex, "::remove_range", "cas::"), [sw.cas_ref, sym_range(ex, sw, st)]),
     "checkpoint": lambda ex, sw, st: (find_fn(ex, "::checkpoint", "cas::"), [sw.cas_ref]),
-    "stats": lambda ex, sw, st: (find_fn(ex, "::stats", "cas::<impl at src/cas.rs:412"), [sw.cas_ref]),
+    "stats": lambda ex, sw, st: (find_fn(ex, "::stats", "cas::", p0="&CasInner"), [sw.cas_ref]),
     "delete_orphan": lambda ex, sw, st: (find_fn(ex, "::delete_orphan", "orphan::"),
                                          [_orphan_ref(ex, sw, st), VRef(st.alloc(VSym(sw.sym_hash(st, "op_hash"), "H")))]),
     "delete_orphans": lambda ex, sw, st: (find_fn(ex, "::delete_orphans", "orphan::"), [_orphan_ref(ex, sw, st)]),
